@@ -193,7 +193,19 @@ class Oracle(simcheck.BaseOracle):
                     before = run.replaced.get(id(o))
                     if before is not None and id(before) not in self.client_at:
                         before = None
-                    self.client_at[id(o)] = self.client_at[id(before)] if before is not None else o.client
+                    if before is None:
+                        self.client_at[id(o)] = o.client
+                    elif o.client is not self.client_at[id(before)] and before.client is not self.client_at[id(before)]:
+                        # known finding F17 at work: a refused placement through another client's transaction had overwritten the
+                        # replaced order's client attribute; the replace then went through THAT client and the replacement is filed
+                        # under it - the views and the cleared summaries follow the overwritten attribute from here on
+                        self.client_at[id(o)] = o.client
+                        self.add("replacement-follows-overwritten-client", "market %s: order %s replaces order %s, which was placed with client %d "
+                                 "and whose client attribute a refused placement had overwritten: the replacement belongs to client %d" % (
+                                     market.market_id, getattr(o, "_vidx", "?"), getattr(before, "_vidx", "?"),
+                                     run.clients.index(self.client_at[id(before)]), run.clients.index(o.client)))
+                    else:
+                        self.client_at[id(o)] = self.client_at[id(before)]
 
     def in_callback(self, run, strategy, market, market_book):
         self._note_new(run, market)
